@@ -716,6 +716,9 @@ func replay(c json.RawMessage) (string, string) {
 	}
 	if k.Sub == "apivalues" {
 		p := strings.SplitN(k.Arg, "\x00", 2)
+		if p[0] == "in-place" {
+			return checkInPlaceEdit()
+		}
 		return checkAPIValue(p[0], p[1])
 	}
 	if k.Sub == "classes" {
